@@ -454,11 +454,14 @@ class CallMixin:
                 return VBool(z3.PrefixOf(args[0].z(), recv.z()) if name == "startswith" else z3.SuffixOf(args[0].z(), recv.z()))
         if recv.py is not None and all(isinstance(a, VStr) and a.py is not None for a in args):
             pyargs = [a.py for a in args]
-            if name in ("upper", "lower", "strip", "rstrip", "lstrip", "startswith", "endswith", "isidentifier", "replace", "split", "format", "isdigit"):
+            if name in ("upper", "lower", "strip", "rstrip", "lstrip", "startswith", "endswith", "isidentifier", "replace", "split", "format", "isdigit",
+                        "partition", "rpartition", "splitlines", "isalnum", "find", "index"):
                 r = getattr(recv.py, name)(*pyargs)
                 if isinstance(r, bool): return VBool(z3.BoolVal(r))
+                if isinstance(r, int): return num(r)
                 if isinstance(r, str): return VStr(r)
                 if isinstance(r, list): return VList([VStr(x) for x in r])
+                if isinstance(r, tuple): return VTuple([VStr(x) for x in r])
         if name == "format" and not self.string_mode:
             return VStr(None, fresh("formatted", z3.StringSort()))          # message text: opaque outside string mode
         raise Unsupported(f"str.{name} on symbolic string @ {self.where(n)}")
